@@ -1020,15 +1020,16 @@ REGISTRY.append(StrandEndToEnd())
 
 
 def gen_pairwise_case(rnd):
-    dims = [gen_dim(rnd, "CAT", "a"), gen_dim(rnd, "CAT", "b")]
+    dims = [gen_dim(rnd, "CAT", "a"), gen_dim(rnd, rnd.choice(["CAT", "CAT", "MR"]), "b")]
     for d in dims:
         d.pop("doc_order", None)
     weighted = rnd.random() < 0.4
     rs = gen_respondents(rnd, dims, rnd.choice([6, 12, 25, 40]), weighted)
     cd = dims[1]
-    ids = [c["id"] for c in cd["cats"]]
+    is_mr = cd["kind"] == "MR"
+    ids = list(range(1, cd["n"] + 1)) if is_mr else [c["id"] for c in cd["cats"]]
     t = {}
-    if rnd.random() < 0.5:
+    if not is_mr and rnd.random() < 0.5:
         t["insertions"] = [{"function": "subtotal", "name": "s", "anchor": rnd.choice(["top", "bottom"] + ids),
                             "args": rnd.sample(ids, rnd.choice([1, min(2, len(ids))])), "id": 1}]
     if rnd.random() < 0.3:
@@ -1049,13 +1050,13 @@ def gen_pairwise_case(rnd):
         pw["only_larger"] = True
     if pw:
         tr["pairwise_indices"] = pw
-    return dict(dims=dims, rs=rs, weighted=weighted, transforms=tr, sq=weighted and rnd.random() < 0.5)
+    return dict(dims=dims, rs=rs, weighted=weighted, transforms=tr, sq=weighted and not is_mr and rnd.random() < 0.5)
 
 
 class PairwiseEndToEnd(EnumContract):
     name = "e2e:pairwise t / p-values and index sets vs first principles (public API)"
     props = ("C13", "C05")
-    bound = ("CAT x CAT responses, <= 4 categories per dimension (missing ones anywhere), <= 40 respondents with "
+    bound = ("CAT x CAT and CAT x MR (no overlap measures) responses, <= 4 categories / 3 items (missing ones anywhere), <= 40 respondents with "
              "fractional weights, optional column subtotal (no differences) / hide / prune / explicit order, alpha in "
              "{default, 0.05, [0.05], [0.3, 0.05], [0.1, 0.45], 0.6}, only_larger in {default, True, False}; seeded sample")
     clauses = ("pairwise-t", "pairwise-p", "pairwise-antisymmetry", "pairwise-indices", "pairwise-indices-alt",
@@ -1091,19 +1092,21 @@ class PairwiseEndToEnd(EnumContract):
             p = Cube(resp, transforms=copy.deepcopy(tr) or None, population=1000).partitions[0]
             co = [int(i) for i in p.column_order()]
             ro = [int(i) for i in p.row_order()]
-            vids = [cd["cats"][j]["id"] for j in C]
             ins = []
-            for one in (tr.get("columns_dimension") or {}).get("insertions") or []:
-                if set(one["args"]) & set(vids):
-                    ins.append([vids.index(i) for i in vids if i in one["args"]])
+            if cd["kind"] != "MR":
+                vids = [cd["cats"][j]["id"] for j in C]
+                for one in (tr.get("columns_dimension") or {}).get("insertions") or []:
+                    if set(one["args"]) & set(vids):
+                        ins.append([vids.index(i) for i in vids if i in one["args"]])
             S = len(ins)
 
             def members(o):
                 return [o] if o >= 0 else ins[o + S]
 
-            W = np.array([[wsum(rs, lambda r, i=i, j=j: r["a"][0] == i and r["a"][1] == j) for j in C] for i in R])
-            U = np.array([[wsum(rs, lambda r, i=i, j=j: r["a"][0] == i and r["a"][1] == j, False) for j in C] for i in R])
-            W2 = np.array([[math.fsum(r["w"] * r["w"] for r in rs if r["a"][0] == i and r["a"][1] == j) for j in C] for i in R])
+            # column j: a category, or "selected item j" of a multiple-response variable
+            W = np.array([[wsum(rs, lambda r, i=i, j=j: r["a"][0] == i and member(cd, r["a"][1], j)) for j in C] for i in R])
+            U = np.array([[wsum(rs, lambda r, i=i, j=j: r["a"][0] == i and member(cd, r["a"][1], j), False) for j in C] for i in R])
+            W2 = np.array([[math.fsum(r["w"] * r["w"] for r in rs if r["a"][0] == i and member(cd, r["a"][1], j)) for j in C] for i in R])
             # per display column: proportion of each base row and unweighted column base
             P, N = [], []
             for o in co:
